@@ -1096,4 +1096,654 @@ theorem setOutputs_shape (P : Params) (fuel : Nat) (s : S) (os : List Nat) (vs :
       · rename_i s' e heq
         rw [heq] at h1; exact ⟨m1, h1⟩
 
+
+/-! ## pickle round trips -/
+
+/-- what no part of a round trip touches: static attributes, panels, flags, the call log -/
+structure RtFrame (s s' : S) : Prop where
+  kind    : s'.kind = s.kind
+  owner   : s'.owner = s.owner
+  hinted  : s'.hinted = s.hinted
+  strict  : s'.strict = s.strict
+  ins     : s'.ins = s.ins
+  outs    : s'.outs = s.outs
+  running : s'.running = s.running
+  failed  : s'.failed = s.failed
+  calls   : s'.calls = s.calls
+
+theorem RtFrame.refl (s : S) : RtFrame s s := ⟨rfl, rfl, rfl, rfl, rfl, rfl, rfl, rfl, rfl⟩
+
+theorem RtFrame.trans {a b c : S} (h1 : RtFrame a b) (h2 : RtFrame b c) : RtFrame a c :=
+  ⟨h2.kind.trans h1.kind, h2.owner.trans h1.owner, h2.hinted.trans h1.hinted, h2.strict.trans h1.strict,
+   h2.ins.trans h1.ins, h2.outs.trans h1.outs, h2.running.trans h1.running, h2.failed.trans h1.failed,
+   h2.calls.trans h1.calls⟩
+
+theorem Frame.rt {s s' : S} (h : Frame s s') : RtFrame s s' :=
+  ⟨h.kind, h.owner, h.hinted, h.strict, h.ins, h.outs, h.running, h.failed, h.calls⟩
+
+theorem link_rtframe (P : Params) (fuel : Nat) (s : S) (a : Nat) (b : Option Nat) :
+    RtFrame s (link P fuel s a b).1 := by
+  cases b with
+  | none => exact ⟨rfl, rfl, rfl, rfl, rfl, rfl, rfl, rfl, rfl⟩
+  | some b =>
+    simp only [link]
+    split
+    · exact .refl s
+    · split
+      · exact .refl s
+      · split
+        · exact .refl s
+        · split
+          · rename_i s' heq
+            have h1 := (setVal_frame P fuel s b (s.val a)).rt
+            rw [heq] at h1
+            exact ⟨h1.kind, h1.owner, h1.hinted, h1.strict, h1.ins, h1.outs, h1.running, h1.failed, h1.calls⟩
+          · rename_i s' e heq
+            have h1 := (setVal_frame P fuel s b (s.val a)).rt
+            rw [heq] at h1
+            exact h1
+
+theorem link_conns (P : Params) (fuel : Nat) (s : S) (a : Nat) (b : Option Nat) :
+    (link P fuel s a b).1.conns = s.conns := by
+  cases b with
+  | none => rfl
+  | some b =>
+    simp only [link]
+    split
+    · rfl
+    · split
+      · rfl
+      · split
+        · rfl
+        · split
+          · rename_i s' heq
+            have := congrArg (fun r => r.1.conns) heq
+            simpa [setVal] using this.symm
+          · rename_i s' e heq
+            have := congrArg (fun r => r.1.conns) heq
+            simpa [setVal] using this.symm
+
+theorem forge_rtframe (P : Params) (fuel : Nat) (push : Bool) (s : S) (a b : Nat) :
+    RtFrame s (forge P fuel push s a b).1 := by
+  unfold forge
+  split
+  · exact link_rtframe P fuel s a (some b)
+  · split
+    · exact .refl s
+    · exact ⟨rfl, rfl, rfl, rfl, rfl, rfl, rfl, rfl, rfl⟩
+
+theorem forge_conns (P : Params) (fuel : Nat) (push : Bool) (s : S) (a b : Nat) :
+    (forge P fuel push s a b).1.conns = s.conns := by
+  unfold forge
+  split
+  · exact link_conns P fuel s a (some b)
+  · split <;> rfl
+
+/-- re-forging by plain assignment leaves every value alone -/
+theorem forge_val (P : Params) (fuel : Nat) (s : S) (a b : Nat) :
+    (forge P fuel false s a b).1.val = s.val := by
+  unfold forge
+  simp only [Bool.false_eq_true, if_false]
+  split <;> rfl
+
+theorem restoreLinks_rtframe (P : Params) (fuel : Nat) (must push : Bool) (pre : S) (res : List (Nat × Nat))
+    (st : S) (l : List Nat) : RtFrame st (restoreLinks P fuel must push pre res st l).1 := by
+  induction l generalizing st with
+  | nil => exact .refl st
+  | cons a l ih =>
+    unfold restoreLinks
+    split
+    · split
+      · exact .refl st
+      · exact ih st
+    · split
+      · exact .refl st
+      · rename_i b' _
+        have h1 := forge_rtframe P fuel push st a b'
+        split
+        · rename_i st' heq; rw [heq] at h1; exact h1.trans (ih st')
+        · rename_i st' e heq; rw [heq] at h1; exact h1
+
+theorem restoreLinks_conns (P : Params) (fuel : Nat) (must push : Bool) (pre : S) (res : List (Nat × Nat))
+    (st : S) (l : List Nat) : (restoreLinks P fuel must push pre res st l).1.conns = st.conns := by
+  induction l generalizing st with
+  | nil => rfl
+  | cons a l ih =>
+    unfold restoreLinks
+    split
+    · split
+      · rfl
+      · exact ih st
+    · split
+      · rfl
+      · rename_i b' _
+        have h1 := forge_conns P fuel push st a b'
+        split
+        · rename_i st' heq; rw [heq] at h1; rw [ih st']; exact h1
+        · rename_i st' e heq; rw [heq] at h1; exact h1
+
+theorem restoreLinks_val (P : Params) (fuel : Nat) (must : Bool) (pre : S) (res : List (Nat × Nat))
+    (st : S) (l : List Nat) : (restoreLinks P fuel must false pre res st l).1.val = st.val := by
+  induction l generalizing st with
+  | nil => rfl
+  | cons a l ih =>
+    unfold restoreLinks
+    split
+    · split
+      · rfl
+      · exact ih st
+    · split
+      · rfl
+      · rename_i b' _
+        have h1 := forge_val P fuel st a b'
+        split
+        · rename_i st' heq; rw [heq] at h1; rw [ih st']; exact h1
+        · rename_i st' e heq; rw [heq] at h1; exact h1
+
+/-- a link is only ever (re)set at a channel that had one before the round trip -/
+theorem restoreLinks_recv (P : Params) (fuel : Nat) (must push : Bool) (pre : S) (res : List (Nat × Nat))
+    (st : S) (l : List Nat) (x : Nat) (hx : pre.recv x = none) :
+    (restoreLinks P fuel must push pre res st l).1.recv x = st.recv x := by
+  induction l generalizing st with
+  | nil => rfl
+  | cons a l ih =>
+    unfold restoreLinks
+    split
+    · split
+      · rfl
+      · exact ih st
+    · rename_i b hb
+      have hax : x ≠ a := by intro e; subst e; rw [hx] at hb; cases hb
+      split
+      · rfl
+      · rename_i b' _
+        have h1 : (forge P fuel push st a b').1.recv x = st.recv x := by
+          unfold forge
+          split
+          · simp only [link]
+            split
+            · rfl
+            · split
+              · rfl
+              · split
+                · rfl
+                · split
+                  · rename_i s' heq
+                    have := congrArg (fun r => r.1.recv) heq
+                    simp only [setVal] at this
+                    simp [updF, hax, ← this]
+                  · rename_i s' e heq
+                    have := congrArg (fun r => r.1.recv) heq
+                    simp only [setVal] at this
+                    simp [← this]
+          · split
+            · rfl
+            · simp [updF, hax]
+        split
+        · rename_i st' heq; rw [heq] at h1; rw [ih st']; exact h1
+        · rename_i st' e heq; rw [heq] at h1; exact h1
+
+theorem connectS_val (P : Params) (s : S) (a b : Nat) : (connectS P s a b).1.val = s.val := by
+  rcases connectS_cases P s a b with heq | ⟨_, _, _, heq⟩ <;> rw [heq]
+
+theorem connectS_recv (P : Params) (s : S) (a b : Nat) : (connectS P s a b).1.recv = s.recv := by
+  rcases connectS_cases P s a b with heq | ⟨_, _, _, heq⟩ <;> rw [heq]
+
+theorem restoreConns_frame (P : Params) (st : S) (res l : List (Nat × Nat)) :
+    RtFrame st (restoreConns P st res l).1 ∧ (restoreConns P st res l).1.val = st.val ∧
+      (restoreConns P st res l).1.recv = st.recv := by
+  induction l generalizing st with
+  | nil => exact ⟨.refl st, rfl, rfl⟩
+  | cons p l ih =>
+    obtain ⟨i, o⟩ := p
+    unfold restoreConns
+    split
+    · exact ⟨.refl st, rfl, rfl⟩
+    · rename_i o' _
+      have h1 := (connectS_frame P st i o').rt
+      have h2 := connectS_val P st i o'
+      have h3 := connectS_recv P st i o'
+      split
+      · rename_i st' heq
+        rw [heq] at h1 h2 h3
+        obtain ⟨i1, i2, i3⟩ := ih st'
+        exact ⟨h1.trans i1, i2.trans h2, i3.trans h3⟩
+      · rename_i st' e heq
+        rw [heq] at h1 h2 h3
+        exact ⟨h1, h2, h3⟩
+
+theorem restoreComp_rtframe (P : Params) (fuel : Nat) (pre st : S) (C : Comp) :
+    RtFrame st (restoreComp P fuel pre st C).1 := by
+  unfold restoreComp
+  simp only
+  have h1 := (restoreConns_frame P st C.resOut
+    (if P.cfg.revIter then (strings pre C.ins).reverse else strings pre C.ins)).1
+  split
+  · rename_i st1 e heq; rw [heq] at h1; exact h1
+  · rename_i st1 heq
+    rw [heq] at h1
+    have h2 := restoreLinks_rtframe P fuel true P.cfg.pushIn pre C.resIn st1 C.mins
+    split
+    · rename_i st2 e heq2; rw [heq2] at h2; exact h1.trans h2
+    · rename_i st2 heq2
+      rw [heq2] at h2
+      exact (h1.trans h2).trans (restoreLinks_rtframe P fuel false P.cfg.pushOut pre C.resMOut st2 C.couts)
+
+theorem restoreAll_rtframe (P : Params) (fuel : Nat) (pre st : S) (cs : List Comp) :
+    RtFrame st (restoreAll P fuel pre st cs).1 := by
+  induction cs generalizing st with
+  | nil => exact .refl st
+  | cons C cs ih =>
+    unfold restoreAll
+    have h1 := restoreComp_rtframe P fuel pre st C
+    split
+    · rename_i st' heq; rw [heq] at h1; exact h1.trans (ih st')
+    · rename_i st' e heq; rw [heq] at h1; exact h1
+
+theorem roundTrip_rtframe (P : Params) (fuel : Nat) (s : S) (scope : List Nat) (cs : List Comp) :
+    RtFrame s (roundTrip P fuel s scope cs).1 := by
+  unfold roundTrip
+  have h1 := restoreAll_rtframe P fuel s (rtClear P s scope) cs
+  split
+  · rename_i s' heq
+    rw [heq] at h1
+    exact ⟨h1.kind, h1.owner, h1.hinted, h1.strict, h1.ins, h1.outs, h1.running, h1.failed, h1.calls⟩
+  · exact .refl s
+
+/-- with both kinds of link re-forged by plain assignment the restoration leaves all values alone -/
+theorem restoreAll_val (P : Params) (fuel : Nat) (pre st : S) (cs : List Comp)
+    (hin : P.cfg.pushIn = false) (hout : P.cfg.pushOut = false) :
+    (restoreAll P fuel pre st cs).1.val = st.val := by
+  induction cs generalizing st with
+  | nil => rfl
+  | cons C cs ih =>
+    unfold restoreAll
+    have h1 : (restoreComp P fuel pre st C).1.val = st.val := by
+      unfold restoreComp
+      simp only
+      have c1 := (restoreConns_frame P st C.resOut
+        (if P.cfg.revIter then (strings pre C.ins).reverse else strings pre C.ins)).2.1
+      split
+      · rename_i st1 e heq; rw [heq] at c1; exact c1
+      · rename_i st1 heq
+        rw [heq] at c1
+        have c2 := restoreLinks_val P fuel true pre C.resIn st1 C.mins
+        rw [hin]
+        split
+        · rename_i st2 e heq2; rw [heq2] at c2; exact c2.trans c1
+        · rename_i st2 heq2
+          rw [heq2] at c2
+          rw [hout, restoreLinks_val]
+          exact c2.trans c1
+    split
+    · rename_i st' heq; rw [heq] at h1; rw [ih st']; exact h1
+    · rename_i st' e heq; rw [heq] at h1; exact h1
+
+/-- a channel without receiver before the round trip has none after it -/
+theorem restoreAll_recv (P : Params) (fuel : Nat) (pre st : S) (cs : List Comp) (x : Nat)
+    (hx : pre.recv x = none) : (restoreAll P fuel pre st cs).1.recv x = st.recv x := by
+  induction cs generalizing st with
+  | nil => rfl
+  | cons C cs ih =>
+    unfold restoreAll
+    have h1 : (restoreComp P fuel pre st C).1.recv x = st.recv x := by
+      unfold restoreComp
+      simp only
+      have c1 := (restoreConns_frame P st C.resOut
+        (if P.cfg.revIter then (strings pre C.ins).reverse else strings pre C.ins)).2.2
+      split
+      · rename_i st1 e heq; rw [heq] at c1; rw [c1]
+      · rename_i st1 heq
+        rw [heq] at c1
+        have c2 := restoreLinks_recv P fuel true P.cfg.pushIn pre C.resIn st1 C.mins x hx
+        split
+        · rename_i st2 e heq2; rw [heq2] at c2; rw [c2, c1]
+        · rename_i st2 heq2
+          rw [heq2] at c2
+          rw [restoreLinks_recv P fuel false P.cfg.pushOut pre C.resMOut st2 C.couts x hx, c2, c1]
+    split
+    · rename_i st' heq; rw [heq] at h1; rw [ih st']; exact h1
+    · rename_i st' e heq; rw [heq] at h1; exact h1
+
+/-- whatever the switches: the restoration invents no value — every channel ends with a value
+some channel held when the restoration began -/
+def NoNew (V : Nat → Val) (st : S) : Prop := ∀ c, ∃ c', st.val c = V c'
+
+theorem setVal_noNew (P : Params) (fuel : Nat) (V : Nat → Val) (st : S) (c a : Nat) (h : NoNew V st) :
+    NoNew V (setVal P fuel st c (st.val a)).1 := by
+  cases hres : (setVal P fuel st c (st.val a)).2 with
+  | some e => rw [setVal_err P fuel st c _ e hres]; exact h
+  | none =>
+    obtain ⟨l, _, hval, _, _⟩ := setVal_ok P fuel st c (st.val a) hres
+    intro x
+    rw [hval x]
+    by_cases hx : x ∈ l
+    · simp only [hx, if_true]; exact h a
+    · simp only [hx, if_false]; exact h x
+
+theorem forge_noNew (P : Params) (fuel : Nat) (push : Bool) (V : Nat → Val) (st : S) (a b : Nat)
+    (h : NoNew V st) : NoNew V (forge P fuel push st a b).1 := by
+  unfold forge
+  split
+  · simp only [link]
+    split
+    · exact h
+    · split
+      · exact h
+      · split
+        · exact h
+        · have h1 := setVal_noNew P fuel V st b a h
+          split
+          · rename_i s' heq; rw [heq] at h1; exact h1
+          · rename_i s' e heq; rw [heq] at h1; exact h1
+  · split
+    · exact h
+    · exact h
+
+theorem restoreLinks_noNew (P : Params) (fuel : Nat) (must push : Bool) (pre : S) (res : List (Nat × Nat))
+    (V : Nat → Val) (st : S) (l : List Nat) (h : NoNew V st) :
+    NoNew V (restoreLinks P fuel must push pre res st l).1 := by
+  induction l generalizing st with
+  | nil => exact h
+  | cons a l ih =>
+    unfold restoreLinks
+    split
+    · split
+      · exact h
+      · exact ih st h
+    · split
+      · exact h
+      · rename_i b' _
+        have h1 := forge_noNew P fuel push V st a b' h
+        split
+        · rename_i st' heq; rw [heq] at h1; exact ih st' h1
+        · rename_i st' e heq; rw [heq] at h1; exact h1
+
+theorem restoreAll_noNew (P : Params) (fuel : Nat) (pre : S) (V : Nat → Val) (st : S) (cs : List Comp)
+    (h : NoNew V st) : NoNew V (restoreAll P fuel pre st cs).1 := by
+  induction cs generalizing st with
+  | nil => exact h
+  | cons C cs ih =>
+    unfold restoreAll
+    have h1 : NoNew V (restoreComp P fuel pre st C).1 := by
+      unfold restoreComp
+      simp only
+      have c1 := (restoreConns_frame P st C.resOut
+        (if P.cfg.revIter then (strings pre C.ins).reverse else strings pre C.ins)).2.1
+      split
+      · rename_i st1 e heq; rw [heq] at c1; intro c; rw [c1]; exact h c
+      · rename_i st1 heq
+        rw [heq] at c1
+        have hs1 : NoNew V st1 := by intro c; rw [c1]; exact h c
+        have c2 := restoreLinks_noNew P fuel true P.cfg.pushIn pre C.resIn V st1 C.mins hs1
+        split
+        · rename_i st2 e heq2; rw [heq2] at c2; exact c2
+        · rename_i st2 heq2
+          rw [heq2] at c2
+          exact restoreLinks_noNew P fuel false P.cfg.pushOut pre C.resMOut V st2 C.couts c2
+    split
+    · rename_i st' heq; rw [heq] at h1; exact ih st' h1
+    · rename_i st' e heq; rw [heq] at h1; exact h1
+
+
+/-! ### the restored order of an input's connections -/
+
+theorem nodup_reverse' {l : List Nat} (h : l.Nodup) : l.reverse.Nodup := by
+  unfold List.Nodup at *
+  rw [List.pairwise_reverse]
+  exact h.imp (fun h => Ne.symm h)
+
+theorem restoreConns_append (P : Params) (st : S) (res l1 l2 : List (Nat × Nat)) :
+    restoreConns P st res (l1 ++ l2) =
+      match restoreConns P st res l1 with
+      | (st1, none) => restoreConns P st1 res l2
+      | (st1, some e) => (st1, some e) := by
+  induction l1 generalizing st with
+  | nil => rfl
+  | cons p l1 ih =>
+    obtain ⟨i, o⟩ := p
+    cases hl : res.lookup o with
+    | none => simp [restoreConns, hl]
+    | some o' =>
+      cases hc : connectS P st i o' with
+      | mk st' e =>
+        cases e with
+        | none => simp [restoreConns, hl, hc, ih]
+        | some e => simp [restoreConns, hl, hc]
+
+/-- a successful restoration leaves alone the list of every channel that is neither the input
+of a stored pair nor the resolved output of one -/
+theorem restoreConns_other (P : Params) (st st' : S) (res l : List (Nat × Nat)) (x : Nat)
+    (h : restoreConns P st res l = (st', none))
+    (h1 : ∀ p ∈ l, p.1 ≠ x) (h2 : ∀ p ∈ l, ∀ o', res.lookup p.2 = some o' → o' ≠ x) :
+    st'.conns x = st.conns x := by
+  induction l generalizing st with
+  | nil => simp only [restoreConns, Prod.mk.injEq, and_true] at h; rw [← h]
+  | cons p l ih =>
+    obtain ⟨i, o⟩ := p
+    unfold restoreConns at h
+    split at h
+    · simp at h
+    · rename_i o' ho'
+      split at h
+      · rename_i st1 heq
+        have hi : i ≠ x := h1 (i, o) (by simp)
+        have ho : o' ≠ x := h2 (i, o) (by simp) o' ho'
+        have hst1 : st1.conns x = st.conns x := by
+          rcases connectS_cases P st i o' with hc | ⟨_, _, _, hc⟩
+          · rw [heq] at hc; simp only at hc; rw [hc]
+          · rw [heq] at hc; simp only at hc; rw [hc]
+            simp [updF, Ne.symm hi, Ne.symm ho]
+        rw [ih st1 h (fun p hp => h1 p (List.mem_cons_of_mem _ hp))
+          (fun p hp => h2 p (List.mem_cons_of_mem _ hp)), hst1]
+      · simp at h
+
+/-- the block of one input: its stored partners, reconnected one after the other, end up in
+front of the list in reverse order of reconnection -/
+theorem restoreConns_block (P : Params) (st st' : S) (res : List (Nat × Nat)) (i : Nat) (os : List Nat)
+    (hres : ∀ o ∈ os, res.lookup o = some o) (hnd : os.Nodup) (hfresh : ∀ o ∈ os, o ∉ st.conns i)
+    (hio : ∀ o ∈ os, o ≠ i)
+    (h : restoreConns P st res (os.map fun o => (i, o)) = (st', none)) :
+    st'.conns i = os.reverse ++ st.conns i := by
+  induction os generalizing st with
+  | nil => simp only [List.map_nil, restoreConns, Prod.mk.injEq, and_true] at h; rw [← h]; simp
+  | cons o os ih =>
+    simp only [List.map_cons] at h
+    unfold restoreConns at h
+    rw [hres o (by simp)] at h
+    simp only at h
+    split at h
+    · rename_i st1 heq
+      have hok : (connectS P st i o).2 = none := by rw [heq]
+      obtain ⟨hc, _⟩ := connectS_effective P st i o (hfresh o (by simp)) hok
+      rw [heq] at hc
+      simp only at hc
+      have hoi : o ≠ i := hio o (by simp)
+      have hst1 : st1.conns i = o :: st.conns i := by
+        rw [hc]; simp [updF, Ne.symm hoi]
+      have hnd' := List.nodup_cons.mp hnd
+      rw [ih st1 (fun x hx => hres x (List.mem_cons_of_mem _ hx)) hnd'.2 ?_
+        (fun x hx => hio x (List.mem_cons_of_mem _ hx)) h, hst1]
+      · simp
+      · intro x hx hm
+        rw [hst1] at hm
+        rcases List.mem_cons.mp hm with rfl | hm
+        · exact hnd'.1 hx
+        · exact hfresh x (List.mem_cons_of_mem _ hx) hm
+    · simp at h
+
+/-- all blocks of one composite, processed in the order `bs`: every input of `bs` whose list was
+empty ends up with exactly its stored list -/
+theorem restoreConns_blocks (P : Params) (res : List (Nat × Nat)) (pre : S) (bs : List Nat) (st st' : S)
+    (hbs : bs.Nodup) (hempty : ∀ i ∈ bs, st.conns i = [])
+    (hnd : ∀ i ∈ bs, (pre.conns i).Nodup) (hout : ∀ i ∈ bs, ∀ o ∈ pre.conns i, o ∉ bs)
+    (hres : ∀ i ∈ bs, ∀ o ∈ pre.conns i, res.lookup o = some o)
+    (h : restoreConns P st res (bs.flatMap fun i => (pre.conns i).reverse.map fun o => (i, o)) = (st', none)) :
+    ∀ i ∈ bs, st'.conns i = pre.conns i := by
+  induction bs generalizing st with
+  | nil => intro i hi; cases hi
+  | cons b bs ih =>
+    simp only [List.flatMap_cons] at h
+    rw [restoreConns_append] at h
+    have hbs' := List.nodup_cons.mp hbs
+    split at h
+    · rename_i st1 heq
+      have hb : st1.conns b = pre.conns b := by
+        have := restoreConns_block P st st1 res b (pre.conns b).reverse
+          (fun o ho => hres b (by simp) o (List.mem_reverse.mp ho))
+          (nodup_reverse' (hnd b (by simp)))
+          (fun o _ => by rw [hempty b (by simp)]; simp)
+          (fun o ho e => hout b (by simp) o (List.mem_reverse.mp ho) (by rw [e]; simp)) heq
+        rw [this, hempty b (by simp)]; simp
+      have hrest : ∀ j ∈ bs, st1.conns j = st.conns j := by
+        intro j hj
+        refine restoreConns_other P st st1 res _ j heq ?_ ?_
+        · intro p hp
+          obtain ⟨o, _, rfl⟩ := List.mem_map.mp hp
+          intro e
+          have e' : b = j := e
+          exact hbs'.1 (by rw [e']; exact hj)
+        · intro p hp o' ho'
+          obtain ⟨o, ho, rfl⟩ := List.mem_map.mp hp
+          have hoo := hres b (by simp) o (List.mem_reverse.mp ho)
+          simp only at ho'
+          rw [hoo] at ho'
+          have hEq : o = o' := Option.some.inj ho'
+          subst hEq
+          intro e
+          exact hout b (by simp) o (List.mem_reverse.mp ho) (by rw [e]; exact List.mem_cons_of_mem _ hj)
+      have ih' := ih st1 hbs'.2 (fun j hj => by rw [hrest j hj]; exact hempty j (List.mem_cons_of_mem _ hj))
+        (fun j hj => hnd j (List.mem_cons_of_mem _ hj))
+        (fun j hj o ho hm => hout j (List.mem_cons_of_mem _ hj) o ho (List.mem_cons_of_mem _ hm))
+        (fun j hj => hres j (List.mem_cons_of_mem _ hj)) h
+      intro i hi
+      rcases List.mem_cons.mp hi with rfl | hi
+      · rw [← hb]
+        refine restoreConns_other P st1 st' res _ i h ?_ ?_
+        · intro p hp
+          obtain ⟨j, hj, hp⟩ := List.mem_flatMap.mp hp
+          obtain ⟨o, _, rfl⟩ := List.mem_map.mp hp
+          intro e
+          have e' : j = i := e
+          exact hbs'.1 (by rw [← e']; exact hj)
+        · intro p hp o' ho'
+          obtain ⟨j, hj, hp⟩ := List.mem_flatMap.mp hp
+          obtain ⟨o, ho, rfl⟩ := List.mem_map.mp hp
+          have hoo := hres j (List.mem_cons_of_mem _ hj) o (List.mem_reverse.mp ho)
+          simp only at ho'
+          rw [hoo] at ho'
+          have hEq : o = o' := Option.some.inj ho'
+          subst hEq
+          intro e
+          exact hout j (List.mem_cons_of_mem _ hj) o (List.mem_reverse.mp ho) (by rw [e]; simp)
+      · exact ih' i hi
+    · simp at h
+
+theorem strings_reverse (pre : S) (dom : List Nat) :
+    (strings pre dom).reverse = dom.reverse.flatMap fun i => (pre.conns i).reverse.map fun o => (i, o) := by
+  unfold strings
+  rw [List.reverse_flatMap]
+  congr 1
+  funext i
+  simp [Function.comp, List.map_reverse]
+
+def allIns (cs : List Comp) : List Nat := cs.flatMap (·.ins)
+
+/-- the whole restoration with `revIter`: every input of every composite gets its stored list
+back, in the stored order; `A` is any set of input channels closed under "is not an upstream" -/
+theorem restoreAll_order (P : Params) (fuel : Nat) (pre : S) (hrev : P.cfg.revIter = true) (A : List Nat)
+    (hA : ∀ i ∈ A, ∀ o ∈ pre.conns i, o ∉ A) (hnd : ∀ i ∈ A, (pre.conns i).Nodup)
+    (cs : List Comp) (st st' : S)
+    (hsub : ∀ i ∈ allIns cs, i ∈ A) (hnodup : (allIns cs).Nodup)
+    (hres : ∀ C ∈ cs, ∀ i ∈ C.ins, ∀ o ∈ pre.conns i, C.resOut.lookup o = some o)
+    (hempty : ∀ i ∈ allIns cs, st.conns i = [])
+    (h : restoreAll P fuel pre st cs = (st', none)) :
+    (∀ i ∈ allIns cs, st'.conns i = pre.conns i) ∧
+    (∀ x ∈ A, x ∉ allIns cs → st'.conns x = st.conns x) := by
+  induction cs generalizing st with
+  | nil =>
+    simp only [restoreAll, Prod.mk.injEq, and_true] at h
+    subst h
+    exact ⟨fun i hi => by simp [allIns] at hi, fun _ _ _ => rfl⟩
+  | cons C cs ih =>
+    have hall : allIns (C :: cs) = C.ins ++ allIns cs := by simp [allIns]
+    rw [hall] at hsub hnodup hempty
+    have hnd2 := List.nodup_append.mp hnodup
+    unfold restoreAll at h
+    split at h
+    · rename_i st1 heq
+      -- the composite `C`
+      unfold restoreComp at heq
+      simp only [hrev, if_true] at heq
+      split at heq
+      · simp at heq
+      · rename_i sa heqa
+        have hca : ∀ i ∈ C.ins, sa.conns i = pre.conns i := by
+          rw [strings_reverse] at heqa
+          intro i hi
+          have := restoreConns_blocks P C.resOut pre C.ins.reverse st sa
+            (nodup_reverse' hnd2.1)
+            (fun j hj => hempty j (List.mem_append_left _ (List.mem_reverse.mp hj)))
+            (fun j hj => hnd j (hsub j (List.mem_append_left _ (List.mem_reverse.mp hj))))
+            (fun j hj o ho hm => hA j (hsub j (List.mem_append_left _ (List.mem_reverse.mp hj))) o ho
+              (hsub o (List.mem_append_left _ (List.mem_reverse.mp hm))))
+            (fun j hj => hres C (by simp) j (List.mem_reverse.mp hj)) heqa
+          exact this i (List.mem_reverse.mpr hi)
+        have hoa : ∀ x ∈ A, x ∉ C.ins → sa.conns x = st.conns x := by
+          intro x hx hxc
+          refine restoreConns_other P st sa C.resOut _ x heqa ?_ ?_
+          · intro p hp
+            rw [List.mem_reverse] at hp
+            unfold strings at hp
+            obtain ⟨j, hj, hp⟩ := List.mem_flatMap.mp hp
+            obtain ⟨o, _, rfl⟩ := List.mem_map.mp hp
+            intro e
+            have e' : j = x := e
+            exact hxc (by rw [← e']; exact hj)
+          · intro p hp o' ho'
+            rw [List.mem_reverse] at hp
+            unfold strings at hp
+            obtain ⟨j, hj, hp⟩ := List.mem_flatMap.mp hp
+            obtain ⟨o, ho, rfl⟩ := List.mem_map.mp hp
+            have hoo := hres C (by simp) j hj o ho
+            simp only at ho'
+            rw [hoo] at ho'
+            have hEq : o = o' := Option.some.inj ho'
+            subst hEq
+            intro e
+            exact hA j (hsub j (List.mem_append_left _ hj)) o ho (by rw [e]; exact hx)
+        have hst1 : st1.conns = sa.conns := by
+          split at heq
+          · rename_i sb e heqb
+            simp only [Prod.mk.injEq] at heq
+            have := restoreLinks_conns P fuel true P.cfg.pushIn pre C.resIn sa C.mins
+            rw [heqb] at this
+            rw [← heq.1]; exact this
+          · rename_i sb heqb
+            have c1 := restoreLinks_conns P fuel true P.cfg.pushIn pre C.resIn sa C.mins
+            rw [heqb] at c1
+            have c2 := restoreLinks_conns P fuel false P.cfg.pushOut pre C.resMOut sb C.couts
+            rw [heq] at c2
+            simp only at c1 c2
+            rw [c2, c1]
+        have ih' := ih st1 (fun i hi => hsub i (List.mem_append_right _ hi)) hnd2.2.1
+          (fun D hD => hres D (List.mem_cons_of_mem _ hD))
+          (fun i hi => by
+            rw [hst1, hoa i (hsub i (List.mem_append_right _ hi))
+              (fun hc => hnd2.2.2 i hc i hi rfl)]
+            exact hempty i (List.mem_append_right _ hi)) h
+        refine ⟨?_, ?_⟩
+        · intro i hi
+          rw [hall] at hi
+          rcases List.mem_append.mp hi with hi | hi
+          · rw [ih'.2 i (hsub i (List.mem_append_left _ hi)) (fun hc => hnd2.2.2 i hi i hc rfl), hst1]
+            exact hca i hi
+          · exact ih'.1 i hi
+        · intro x hx hxn
+          rw [hall] at hxn
+          have hx1 : x ∉ C.ins := fun hc => hxn (List.mem_append_left _ hc)
+          have hx2 : x ∉ allIns cs := fun hc => hxn (List.mem_append_right _ hc)
+          rw [ih'.2 x hx hx2, hst1, hoa x hx hx1]
+    · simp at h
+
 end PwVerif.Data
